@@ -1,0 +1,276 @@
+//go:build verif
+
+// Contracts for the verification machinery in /verif (comment only; compiled
+// only with -tags verif and then adds nothing to the package).
+package filter
+
+/*@ immutable filter.notFilter.child filter.selectorFilter.selector
+@*/
+/*@ frozen filter.nsNameFilter.fullset
+@*/
+
+/*@ theory filters
+;; theory obj labels
+;; uses filter.nullFilter filter.allFilter filter.nsNameFilter nsname.NSName
+(define-sort NSN () |S!nsname.NSName|)
+(define-fun nsn-ns ((x NSN)) Str (|nsname.NSName.Namespace| x))
+(define-fun nsn-name ((x NSN)) Str (|nsname.NSName.Name| x))
+(declare-fun |box!filter.nullFilter| (|S!filter.nullFilter|) V)
+(declare-fun |unbox!filter.nullFilter| (V) |S!filter.nullFilter|)
+(declare-fun |box!filter.allFilter| (|S!filter.allFilter|) V)
+(declare-fun |unbox!filter.allFilter| (V) |S!filter.allFilter|)
+(declare-fun |box!filter.andFilter| ((Slice V)) V)
+(declare-fun |unbox!filter.andFilter| (V) (Slice V))
+(declare-fun |box!filter.orFilter| ((Slice V)) V)
+(declare-fun |unbox!filter.orFilter| (V) (Slice V))
+(declare-fun |box!filter.nsNameFilter| (|S!filter.nsNameFilter|) V)
+(declare-fun |unbox!filter.nsNameFilter| (V) |S!filter.nsNameFilter|)
+(declare-fun |F!filter.notFilter!child| (V) V)
+(declare-fun |F!filter.selectorFilter!selector| (V) V)
+(declare-fun |fdom!S!nsname.NSName!Bool| (V) (Array NSN Bool))
+(declare-fun |fval!S!nsname.NSName!Bool| (V) (Array NSN Bool))
+(declare-fun |dyn!V!0| (V V) Bool)
+; two filters accept exactly the same objects
+(define-fun sameAccept ((f V) (g V)) Bool (forall ((o V)) (= (accept f o) (accept g o))))
+; C18, NSName: an entry matches an object if it equals its namespace/name, or one field is empty
+; and the other equals (entries with both fields empty are outside the contract)
+(define-fun idMatch ((id NSN) (o V)) Bool
+  (or (and (= (nsn-ns id) (obj-ns o)) (= (nsn-name id) (obj-name o)))
+      (and (= (nsn-ns id) |str!|) (= (nsn-name id) (obj-name o)))
+      (and (= (nsn-name id) |str!|) (= (nsn-ns id) (obj-ns o)))))
+(define-fun idFull ((id NSN)) Bool (and (not (= (nsn-ns id) |str!|)) (not (= (nsn-name id) |str!|))))
+; what the scan of the partial entries decides for one entry
+(define-fun partialHit ((id NSN) (o V)) Bool
+  (ite (= (nsn-ns id) |str!|) (= (nsn-name id) (obj-name o))
+       (and (= (nsn-name id) |str!|) (= (nsn-ns id) (obj-ns o)))))
+(define-fun nsAccept ((x |S!filter.nsNameFilter|) (o V)) Bool
+  (or (select (|fdom!S!nsname.NSName!Bool| (|filter.nsNameFilter.fullset| x)) (|mk!nsname.NSName| (obj-ns o) (obj-name o)))
+      (exists ((p Int)) (and (<= 0 p) (< p (slen (|filter.nsNameFilter.partials| x)))
+                             (partialHit (select (sarr (|filter.nsNameFilter.partials| x)) p) o)))))
+; ---- the meaning of accept for each filter type of the library (C18's sentences) ----
+(assert (forall ((f V) (o V)) (! (=> (= (dyntype f) |ty!filter.nullFilter|) (accept f o)) :pattern ((accept f o)))))
+(assert (forall ((f V) (o V)) (! (=> (= (dyntype f) |ty!filter.allFilter|) (not (accept f o))) :pattern ((accept f o)))))
+(assert (forall ((f V) (o V)) (! (=> (= (dyntype f) |ty!*filter.notFilter|)
+    (= (accept f o) (not (accept (|F!filter.notFilter!child| f) o)))) :pattern ((accept f o)))))
+(assert (forall ((f V) (o V)) (! (=> (= (dyntype f) |ty!filter.andFilter|)
+    (= (accept f o) (forall ((j Int)) (=> (and (<= 0 j) (< j (slen (|unbox!filter.andFilter| f))))
+                                          (accept (select (sarr (|unbox!filter.andFilter| f)) j) o))))) :pattern ((accept f o)))))
+(assert (forall ((f V) (o V)) (! (=> (= (dyntype f) |ty!filter.orFilter|)
+    (= (accept f o) (exists ((j Int)) (and (<= 0 j) (< j (slen (|unbox!filter.orFilter| f)))
+                                           (accept (select (sarr (|unbox!filter.orFilter| f)) j) o))))) :pattern ((accept f o)))))
+(assert (forall ((f V) (o V)) (! (=> (= (dyntype f) |ty!filter.nsNameFilter|)
+    (= (accept f o) (nsAccept (|unbox!filter.nsNameFilter| f) o))) :pattern ((accept f o)))))
+(assert (forall ((f V) (o V)) (! (=> (= (dyntype f) |ty!*filter.selectorFilter|)
+    (= (accept f o) (sel-matches (|F!filter.selectorFilter!selector| f) (obj-labels o)))) :pattern ((accept f o)))))
+(assert (forall ((f V) (o V)) (! (=> (= (dyntype f) |ty!filter.fnFilter|)
+    (= (accept f o) (|dyn!V!0| f o))) :pattern ((accept f o)))))
+; ---- assumed consequences of reflect.DeepEqual for the types compared with it ----
+(assert (forall ((a V) (b V)) (! (=> (and (deep-equal a b) (= (dyntype a) |ty!filter.nsNameFilter|))
+    (and (= (dyntype b) |ty!filter.nsNameFilter|)
+         (let ((x (|unbox!filter.nsNameFilter| a)) (y (|unbox!filter.nsNameFilter| b)))
+           (and (forall ((k NSN)) (= (select (|fdom!S!nsname.NSName!Bool| (|filter.nsNameFilter.fullset| x)) k)
+                                     (select (|fdom!S!nsname.NSName!Bool| (|filter.nsNameFilter.fullset| y)) k)))
+                (= (slen (|filter.nsNameFilter.partials| x)) (slen (|filter.nsNameFilter.partials| y)))
+                (forall ((p Int)) (=> (and (<= 0 p) (< p (slen (|filter.nsNameFilter.partials| x))))
+                     (= (select (sarr (|filter.nsNameFilter.partials| x)) p) (select (sarr (|filter.nsNameFilter.partials| y)) p)))))))) :pattern ((deep-equal a b)))))
+(assert (forall ((a V) (b V)) (! (=> (deep-equal a b) (forall ((l V)) (= (sel-matches a l) (sel-matches b l)))) :pattern ((deep-equal a b)))))
+@*/
+
+/*@ iface filter.ComparableFilter.Equals
+  theory filters
+  ensures (=> result (sameAccept $recv $0))
+@*/
+
+/*@ func filter.Null
+  props C18 C17
+  theory filters
+  ensures [is-null] (and (not (= result vnil)) (= (dyntype result) |ty!filter.nullFilter|))
+  ensures [accepts-everything] (forall ((o V)) (accept result o))
+@*/
+/*@ func (filter.nullFilter).Accept
+  props C18
+  theory filters
+  implements filter.Filter.Accept
+  ensures result
+@*/
+/*@ func (filter.nullFilter).Equals
+  props C17
+  theory filters
+  implements filter.ComparableFilter.Equals
+@*/
+/*@ func filter.All
+  props C18 C17
+  theory filters
+  ensures [is-all] (and (not (= result vnil)) (= (dyntype result) |ty!filter.allFilter|))
+  ensures [rejects-everything] (forall ((o V)) (not (accept result o)))
+@*/
+/*@ func (filter.allFilter).Accept
+  props C18
+  theory filters
+  implements filter.Filter.Accept
+  ensures (not result)
+@*/
+/*@ func (filter.allFilter).Equals
+  props C17
+  theory filters
+  implements filter.ComparableFilter.Equals
+@*/
+
+/*@ func filter.Not
+  props C18 C17
+  theory filters
+  ensures [is-not] (and (not (= result vnil)) (= (dyntype result) |ty!*filter.notFilter|) (= (|F!filter.notFilter!child| result) {child}))
+  ensures [negation] (forall ((o V)) (= (accept result o) (not (accept {child} o))))
+@*/
+/*@ func (*filter.notFilter).Accept
+  props C18
+  theory filters
+  implements filter.Filter.Accept
+  requires [recv] (not (= {f} vnil))
+  requires [objinv-child-nonnil] (not (= {f.child} vnil))
+  ensures (= result (not (accept {f.child} {obj})))
+@*/
+/*@ func (*filter.notFilter).Equals
+  props C17
+  theory filters
+  implements filter.ComparableFilter.Equals
+  requires [recv] (not (= {f} vnil))
+@*/
+
+/*@ func filter.FN
+  props C18
+  theory filters
+  ensures (and (= result {fn}) (=> (not (= {fn} vnil)) (= (dyntype result) |ty!filter.fnFilter|)))
+@*/
+/*@ func (filter.fnFilter).Accept
+  props C18
+  theory filters
+  implements filter.Filter.Accept
+  requires (not (= {f} vnil))
+@*/
+
+/*@ func filter.FiltersEqual
+  props C17 C07
+  theory filters
+  ensures [sound] (=> (and result (not (= {f1} vnil)) (not (= {f2} vnil))) (sameAccept {f1} {f2}))
+  ensures [nil-cases] (=> (or (= {f1} vnil) (= {f2} vnil)) (= result (and (= {f1} vnil) (= {f2} vnil))))
+@*/
+
+/*@ func filter.And
+  props C18 C17
+  theory filters
+  ensures [is-and] (and (not (= result vnil)) (= (dyntype result) |ty!filter.andFilter|) (= (|unbox!filter.andFilter| result) {children}))
+  ensures [conjunction] (forall ((o V)) (= (accept result o)
+        (forall ((j Int)) (=> (and (<= 0 j) (< j (slen {children}))) (accept (select (sarr {children}) j) o)))))
+@*/
+/*@ func (filter.andFilter).Accept
+  props C18
+  theory filters
+  implements filter.Filter.Accept
+  requires [objinv-children-nonnil] (forall ((j Int)) (=> (and (<= 0 j) (< j (slen {f}))) (not (= (select (sarr {f}) j) vnil))))
+  loop 1 inv [range] (and (<= 0 (+ {rangeindex} 1)) (<= (+ {rangeindex} 1) (slen {f})))
+  loop 1 inv [prefix-accepts] (forall ((j Int)) (=> (and (<= 0 j) (< j (+ {rangeindex} 1))) (accept (select (sarr {f}) j) {obj})))
+  ensures (= result (forall ((j Int)) (=> (and (<= 0 j) (< j (slen {f}))) (accept (select (sarr {f}) j) {obj}))))
+@*/
+/*@ func (filter.andFilter).Equals
+  props C17
+  theory filters
+  implements filter.ComparableFilter.Equals
+@*/
+/*@ func filter.Or
+  props C18 C17
+  theory filters
+  ensures [is-or] (and (not (= result vnil)) (= (dyntype result) |ty!filter.orFilter|) (= (|unbox!filter.orFilter| result) {children}))
+  ensures [disjunction] (forall ((o V)) (= (accept result o)
+        (exists ((j Int)) (and (<= 0 j) (< j (slen {children})) (accept (select (sarr {children}) j) o)))))
+@*/
+/*@ func (filter.orFilter).Accept
+  props C18
+  theory filters
+  implements filter.Filter.Accept
+  requires [objinv-children-nonnil] (forall ((j Int)) (=> (and (<= 0 j) (< j (slen {f}))) (not (= (select (sarr {f}) j) vnil))))
+  loop 1 inv [range] (and (<= 0 (+ {rangeindex} 1)) (<= (+ {rangeindex} 1) (slen {f})))
+  loop 1 inv [prefix-rejects] (forall ((j Int)) (=> (and (<= 0 j) (< j (+ {rangeindex} 1))) (not (accept (select (sarr {f}) j) {obj}))))
+  ensures (= result (exists ((j Int)) (and (<= 0 j) (< j (slen {f})) (accept (select (sarr {f}) j) {obj}))))
+@*/
+/*@ func (filter.orFilter).Equals
+  props C17
+  theory filters
+  implements filter.ComparableFilter.Equals
+@*/
+/*@ func filter.compareFilterList
+  props C17
+  theory filters
+  loop 1 inv [range] (and (<= 0 (+ {rangeindex} 1)) (<= (+ {rangeindex} 1) (slen {a})) (= (slen {a}) (slen {b})))
+  loop 1 inv [prefix-same] (forall ((j Int)) (=> (and (<= 0 j) (< j (+ {rangeindex} 1)))
+        (sameAccept (select (sarr {a}) j) (select (sarr {b}) j))))
+  ensures (=> result (and (= (slen {a}) (slen {b}))
+        (forall ((j Int)) (=> (and (<= 0 j) (< j (slen {a}))) (sameAccept (select (sarr {a}) j) (select (sarr {b}) j))))))
+@*/
+
+/*@ func filter.NSName
+  props C18 C17
+  theory filters
+  requires [no-entry-with-both-fields-empty] (forall ((j Int)) (=> (and (<= 0 j) (< j (slen {ids})))
+        (not (and (= (nsn-ns (select (sarr {ids}) j)) |str!|) (= (nsn-name (select (sarr {ids}) j)) |str!|)))))
+  loop 1 inv [range] (and (<= 0 (+ {rangeindex} 1)) (<= (+ {rangeindex} 1) (slen {ids})) (not (= {fullset} vnil)))
+  loop 1 inv [fullset-exact] (forall ((k NSN)) (= (select {dom(fullset)} k)
+        (exists ((j Int)) (and (<= 0 j) (< j (+ {rangeindex} 1)) (= (select (sarr {ids}) j) k) (idFull k)))))
+  loop 1 inv [partials-sound] (forall ((p Int)) (=> (and (<= 0 p) (< p (slen {partials})))
+        (and (not (idFull (select (sarr {partials}) p)))
+             (exists ((j Int)) (and (<= 0 j) (< j (+ {rangeindex} 1)) (= (select (sarr {ids}) j) (select (sarr {partials}) p)))))))
+  loop 1 inv [partials-complete] (forall ((j Int)) (=> (and (<= 0 j) (< j (+ {rangeindex} 1)) (not (idFull (select (sarr {ids}) j))))
+        (exists ((p Int)) (and (<= 0 p) (< p (slen {partials})) (= (select (sarr {partials}) p) (select (sarr {ids}) j))))))
+  ensures [is-nsname] (and (not (= result vnil)) (= (dyntype result) |ty!filter.nsNameFilter|))
+  ensures [some-entry-matches] (forall ((o V)) (= (accept result o)
+        (exists ((j Int)) (and (<= 0 j) (< j (slen {ids})) (idMatch (select (sarr {ids}) j) o)))))
+@*/
+/*@ func (filter.nsNameFilter).Accept
+  props C18
+  theory filters
+  implements filter.Filter.Accept
+  loop 1 inv [range] (and (<= 0 (+ {rangeindex} 1)) (<= (+ {rangeindex} 1) (slen {f.partials})))
+  loop 1 inv [prefix-misses] (forall ((p Int)) (=> (and (<= 0 p) (< p (+ {rangeindex} 1)))
+        (not (partialHit (select (sarr {f.partials}) p) {obj}))))
+  ensures (= result (nsAccept {f} {obj}))
+@*/
+/*@ func (filter.nsNameFilter).Equals
+  props C17
+  theory filters
+  implements filter.ComparableFilter.Equals
+@*/
+
+/*@ func filter.Selector
+  props C18 C17
+  theory filters labelsem
+  ensures [is-selector] (and (not (= result vnil)) (= (dyntype result) |ty!*filter.selectorFilter|) (= (|F!filter.selectorFilter!selector| result) {selector}))
+  ensures [selector-semantics] (forall ((o V)) (= (accept result o) (sel-matches {selector} (obj-labels o))))
+@*/
+/*@ func filter.Labels
+  props C18 C17
+  theory filters labelsem
+  ensures [is-selector] (and (not (= result vnil)) (= (dyntype result) |ty!*filter.selectorFilter|) (= (|F!filter.selectorFilter!selector| result) (sel-from-set {match})))
+  ensures [subset-of-object-labels] (forall ((o V)) (= (accept result o) (submap {match} (obj-labels o))))
+@*/
+/*@ func filter.LabelSelector
+  props C18 C17
+  theory filters labelsem
+  allow panic
+  note LabelSelector panics on an invalid selector (documented TODO in the code; outside the property)
+  ensures [is-selector] (and (not (= result vnil)) (= (dyntype result) |ty!*filter.selectorFilter|) (= (|F!filter.selectorFilter!selector| result) (sel-from-ls {ls})))
+  ensures [selector-semantics] (forall ((o V)) (= (accept result o) (sel-matches (sel-from-ls {ls}) (obj-labels o))))
+@*/
+/*@ func (*filter.selectorFilter).Accept
+  props C18
+  theory filters labelsem
+  implements filter.Filter.Accept
+  requires [recv] (not (= {f} vnil))
+  requires [objinv-selector-nonnil] (not (= {f.selector} vnil))
+  ensures (= result (sel-matches {f.selector} (obj-labels {obj})))
+@*/
+/*@ func (*filter.selectorFilter).Equals
+  props C17
+  theory filters labelsem
+  implements filter.ComparableFilter.Equals
+  requires [recv] (not (= {f} vnil))
+@*/
